@@ -239,7 +239,7 @@ Proof.
             Forall (fun r => x <= w_x r /\ y <= w_y r) rs /\ rel_geoms x y rs = [(0, 0, w, h)]).
   { intros [|r [|r2 rs]] G; try discriminate. inversion G. unfold rel_geoms. cbn [map].
     split; [constructor; [lia|constructor]|]. rewrite !Nat.sub_diag. reflexivity. }
-  destruct (p_enc p =? c_encRaw)%Z.
+  destruct ((p_enc p =? c_encRaw) || (p_enc p =? -1))%Z.
   { destruct (send_raw_ok W H (p_bypp p) (p_cmode p) scr WF PIX x y w h rects HX HY E) as [A B].
     replace ((w =? 0) || (h =? 0)) with false in B by (symmetry; apply orb_false_iff; split; apply Nat.eqb_neq; lia).
     destruct (SINGLE rects B) as [C D]. rewrite D. auto. }
